@@ -75,7 +75,11 @@ pub enum BlobType { Tree, Data }
 impl PackerStatsR {
     #[verifier::external_body]
     pub fn apply(self, summary: &mut SummaryR, tpe: BlobType) { unimplemented!() }
+    // #[derive(Default)]: the empty statistics
+    #[verifier::external_body]
+    pub fn default() -> PackerStatsR { unimplemented!() }
 }
+pub type PackerStats = PackerStatsR;
 pub struct ZonedR { pub _opaque: u64 }
 impl SummaryR {
     #[verifier::external_body]
@@ -439,5 +443,48 @@ impl VRepackIndexer {
     pub fn vfinalize(&self, w: &mut RepackFlush) -> (r: RusticResult<()>)
         requires old(w).done@.contains(1) && old(w).done@.contains(2),
         ensures r is Ok ==> final(w).index_written@, final(w).done@ == old(w).done@,
+    { unimplemented!() }
+}
+
+// ---- the blob thread of the packer (Packer::new): the status Packer::finalize returns ----
+pub struct BlobIdW(pub u64);
+pub struct VBlobItem { pub _opaque: u64 }
+// the processed blobs reaching the final stage (after the dedup filters and process_data), in order.  The lazy pipeline
+// in front of try_for_each is ABSTRACTED to this sequence (channels / threads / filters: the filter and process closures
+// are units of C07 / C08)
+pub uninterp spec fn BLOB_RESULTS() -> Seq<RusticResult<(VBlobItem, BlobIdW, u64, Option<u32>)>>;
+// "this blob was added to the open pack" -- only RawPacker::add_raw can produce it
+pub uninterp spec fn BLOB_ADDED(id: BlobIdW) -> bool;
+// "RawPacker::finalize succeeded" (unit raw_packer_finalize: the open pack was flushed and the writer thread joined)
+pub uninterp spec fn RAW_PACKER_FINALIZED() -> bool;
+pub struct VBlobRx { pub _opaque: u64 }
+#[verifier::external_body]
+pub fn vblob_pipeline(rx: VBlobRx, scope: &VScope) -> (r: Vec<RusticResult<(VBlobItem, BlobIdW, u64, Option<u32>)>>)
+    ensures r@ == BLOB_RESULTS(),
+{ unimplemented!() }
+pub struct VRawPackerLock { pub _opaque: u64 }
+impl VRawPackerLock {
+    // raw_packer.write().unwrap().add_raw(..)
+    #[verifier::external_body]
+    pub fn vadd_raw(&self, data: VBlobItem, id: &BlobIdW, data_len: u64, ul: Option<u32>) -> (r: RusticResult<()>)
+        ensures r is Ok ==> BLOB_ADDED(*id),
+    { unimplemented!() }
+    // raw_packer.write().unwrap().finalize()
+    #[verifier::external_body]
+    pub fn vfinalize(&self) -> (r: RusticResult<PackerStatsR>)
+        ensures r is Ok ==> RAW_PACKER_FINALIZED(),
+    { unimplemented!() }
+}
+pub open spec fn every_blob_added_and_packer_finalized() -> bool {
+    &&& RAW_PACKER_FINALIZED()
+    &&& forall|i: int| 0 <= i < BLOB_RESULTS().len() ==> (#[trigger] BLOB_RESULTS()[i]) is Ok && BLOB_ADDED(BLOB_RESULTS()[i]->Ok_0.1)
+}
+pub struct VStatsTx { pub _opaque: u64 }
+impl VStatsTx {
+    // the status Packer::finalize returns.  PRECONDITION: success only if every blob reaching the final stage was
+    // processed and added to a pack and the raw packer was finalized
+    #[verifier::external_body]
+    pub fn send(&self, status: RusticResult<PackerStatsR>) -> (r: Result<(), ()>)
+        requires status is Ok ==> every_blob_added_and_packer_finalized(),
     { unimplemented!() }
 }
